@@ -1,1 +1,153 @@
-(* Props/C09.v — to be filled *)
+(* Props/C09.v — property theorems only.  Model: Model/Fail.v on top of
+   Model/Graph.v (hand transcription of eval_func's except clauses and of the
+   failure paths of _evaluate / _evaluate_range / _process_gen_graph; tied by
+   the differential run with fault injection).  Every theorem holds for EVERY
+   well-formed workbook W WITHOUT stored results, EVERY partial formula
+   semantics, EVERY evaluation order of new range nodes, EVERY history.
+
+   Vocabulary (Model/Fail.v, Proofs/C09Eval.v, C09Inv.v, C09.v, C09Repair.v):
+     fsem n vals        Some v: the formula of n computes v from the values of its
+                        precedents | None: it raises (-> FormulaEvalError)
+     fpre n = Some k    the formula of n raises NameError after reading its first k
+                        precedents (-> UnknownFunction)
+     rorder             order in which a build evaluates the new range nodes
+     evaluate_f s n     (state, FVal v | FRaise UnknownFunction/FormulaEvalError)
+     fspec inp n        outcome of a from-scratch evaluation of n under inputs inp
+     sem, completes     ANY total semantics that agrees with fsem where fsem returns;
+                        spec W sem is the from-scratch value of C01
+     FInv s             the C01 invariant Inv W sem s  +  every cached formula value
+                        is the value of a from-scratch evaluation that succeeds
+     fext R c c'        c' = c except at cells of R that were empty and now hold
+                        the value of their successful from-scratch evaluation
+     fok_op             Evaluate n / Build n: n < wb_n; SetValue a v: a a built input
+     fails_at inp k     the formula of k itself raises on its precedents' values
+     as_input W f v     W with cell f turned into an input holding v
+     rok_op             as fok_op, and writes avoid the precedents of the repaired cell *)
+From Coq Require Import List.
+From PV Require Import Lib.Py Model.Graph Model.Fail.
+From PV Require Import Proofs.C01Base Proofs.C01Eval Proofs.C01Inv.
+From PV Require Import Proofs.C09Eval Proofs.C09Inv Proofs.C09 Proofs.C09Repair.
+Import ListNotations.
+
+(* the invariant holds initially and survives every operation — an evaluate or
+   a build that RAISES included *)
+Theorem C09_inv_preserved : forall W fsem fpre rorder sem,
+  wf W -> sem_nonblank W sem -> completes fsem fpre sem -> (forall n, wb_stored W n = VNone) ->
+  FInv W fsem fpre sem (init W) /\
+  forall s o, FInv W fsem fpre sem s -> fok_op W s o ->
+              FInv W fsem fpre sem (fst (step_f W fsem fpre rorder s o)).
+Proof. exact inv_preserved. Qed.
+Print Assumptions C09_inv_preserved.
+
+(* what FInv says: the C01 invariant, and no stale value — a cell whose
+   from-scratch evaluation fails is empty *)
+Theorem C09_inv_meaning : forall W fsem fpre sem s, FInv W fsem fpre sem s ->
+  Inv W sem s /\
+  forall n, n < wb_n W -> wb_input W n = false ->
+    is_raise (fspec W fsem fpre (st_cache s) n) = true -> st_cache s n = VNone.
+Proof. exact inv_meaning. Qed.
+Print Assumptions C09_inv_meaning.
+
+(* evaluate returns exactly when the from-scratch evaluation succeeds, and then
+   its value; whether it returns or raises, the cache changes only at the cell
+   and its ancestors, only from empty to a from-scratch value *)
+Theorem C09_evaluate_outcome : forall W fsem fpre rorder sem,
+  wf W -> sem_nonblank W sem -> completes fsem fpre sem -> (forall n, wb_stored W n = VNone) ->
+  forall s n, FInv W fsem fpre sem s -> n < wb_n W ->
+    let r := evaluate_f W fsem fpre rorder s n in
+    FInv W fsem fpre sem (fst r)
+    /\ fval (snd r) = fval (fspec W fsem fpre (st_cache s) n)
+    /\ fext W fsem fpre (anceq W n) (st_cache s) (st_cache (fst r))
+    /\ (forall m, st_built s m = true -> st_built (fst r) m = true).
+Proof. exact evaluate_f_inv. Qed.
+Print Assumptions C09_evaluate_outcome.
+
+(* a failed evaluate: invariant kept, the failing cell is a formula cell left
+   empty, everything stored on the way is a from-scratch value *)
+Theorem C09_failed_evaluate : forall W fsem fpre rorder sem,
+  wf W -> sem_nonblank W sem -> completes fsem fpre sem -> (forall n, wb_stored W n = VNone) ->
+  forall s n, FInv W fsem fpre sem s -> n < wb_n W ->
+    is_raise (snd (evaluate_f W fsem fpre rorder s n)) = true ->
+    let s' := fst (evaluate_f W fsem fpre rorder s n) in
+    FInv W fsem fpre sem s' /\ fext W fsem fpre (anceq W n) (st_cache s) (st_cache s') /\
+    wb_input W n = false /\ st_cache s' n = VNone /\
+    is_raise (fspec W fsem fpre (st_cache s) n) = true.
+Proof. exact failed_evaluate. Qed.
+Print Assumptions C09_failed_evaluate.
+
+(* after any history — any number of failed evaluations in it — a cell with no
+   failing cell at or below it evaluates to its from-scratch value *)
+Theorem C09_unrelated : forall W fsem fpre rorder sem,
+  wf W -> sem_nonblank W sem -> completes fsem fpre sem -> (forall n, wb_stored W n = VNone) ->
+  forall h n, fok_history W fsem fpre rorder (init W) h -> n < wb_n W ->
+    let s := fst (run_f W fsem fpre rorder (init W) h) in
+    (forall k, k = n \/ anc W k n -> ~ fails_at W fsem fpre sem (st_cache s) k) ->
+    snd (evaluate_f W fsem fpre rorder s n) = FVal (spec W sem (st_cache s) n).
+Proof. exact unrelated. Qed.
+Print Assumptions C09_unrelated.
+
+(* after a failed evaluate of n and ANY further history whose writes avoid the
+   input cells below n, evaluating n or any dependant raises again and leaves it
+   empty (never a cached value) *)
+Theorem C09_retry : forall W fsem fpre rorder sem,
+  wf W -> sem_nonblank W sem -> completes fsem fpre sem -> (forall n, wb_stored W n = VNone) ->
+  forall s n h, FInv W fsem fpre sem s -> n < wb_n W ->
+    is_raise (snd (evaluate_f W fsem fpre rorder s n)) = true ->
+    let s1 := fst (evaluate_f W fsem fpre rorder s n) in
+    fok_history W fsem fpre rorder s1 h -> writes_avoid (fun a => anc W a n) h ->
+    forall d, d < wb_n W -> d = n \/ anc W n d ->
+      is_raise (snd (evaluate_f W fsem fpre rorder (fst (run_f W fsem fpre rorder s1 h)) d)) = true /\
+      st_cache (fst (evaluate_f W fsem fpre rorder (fst (run_f W fsem fpre rorder s1 h)) d)) d = VNone.
+Proof. exact retry. Qed.
+Print Assumptions C09_retry.
+
+(* the same for any two states that agree on the input cells below n: failures
+   are functions of the inputs *)
+Theorem C09_retry_deterministic : forall W fsem fpre rorder sem,
+  wf W -> sem_nonblank W sem -> completes fsem fpre sem -> (forall n, wb_stored W n = VNone) ->
+  forall s n, FInv W fsem fpre sem s -> n < wb_n W ->
+    is_raise (snd (evaluate_f W fsem fpre rorder s n)) = true ->
+    forall s2, FInv W fsem fpre sem s2 ->
+      (forall k, wb_input W k = true -> anc W k n -> st_cache s2 k = st_cache s k) ->
+      forall d, d < wb_n W -> d = n \/ anc W n d ->
+        is_raise (snd (evaluate_f W fsem fpre rorder s2 d)) = true /\
+        st_cache (fst (evaluate_f W fsem fpre rorder s2 d)) d = VNone.
+Proof. exact retry_state. Qed.
+Print Assumptions C09_retry_deterministic.
+
+(* PARTIAL (C09_repair): the failing cell f0 is overwritten with a constant v0;
+   after ANY further history whose writes avoid the precedents of f0 (rok_op),
+   every cell returns / raises exactly as a from-scratch evaluation of the
+   workbook in which f0 is an input holding v0.  Missing for the full
+   statement: writes to precedents of f0 — the formula stays attached to the
+   cell, such a write resets it and the failure returns
+   (Refuted/C09_repair_undone.v, known finding C09-repair-undone-by-upstream-write). *)
+Theorem C09_repair_partial : forall W fsem fpre rorder sem f0 v0,
+  wf W -> sem_nonblank W sem -> completes fsem fpre sem -> (forall n, wb_stored W n = VNone) ->
+  f0 < wb_n W -> wb_input W f0 = false -> v0 <> VNone ->
+  forall s h d, FInv W fsem fpre sem s -> st_built s f0 = true ->
+    is_raise (fspec W fsem fpre (st_cache s) f0) = true ->
+    let s1 := set_value W s f0 v0 in
+    rok_history W fsem fpre rorder f0 s1 h -> d < wb_n W ->
+    let s2 := fst (run_f W fsem fpre rorder s1 h) in
+    st_cache s2 f0 = v0 /\
+    fval (snd (evaluate_f W fsem fpre rorder s2 d))
+    = fval (fspec (as_input W f0 v0) fsem fpre (st_cache s2) d).
+Proof. exact repair. Qed.
+Print Assumptions C09_repair_partial.
+
+(* … and a cell with no failing cell left at or below it returns its
+   from-scratch value in the repaired workbook *)
+Theorem C09_repair_value_partial : forall W fsem fpre rorder sem f0 v0,
+  wf W -> sem_nonblank W sem -> completes fsem fpre sem -> (forall n, wb_stored W n = VNone) ->
+  f0 < wb_n W -> wb_input W f0 = false -> v0 <> VNone ->
+  forall s h d, FInv W fsem fpre sem s -> st_built s f0 = true ->
+    is_raise (fspec W fsem fpre (st_cache s) f0) = true ->
+    let s1 := set_value W s f0 v0 in
+    rok_history W fsem fpre rorder f0 s1 h -> d < wb_n W ->
+    let s2 := fst (run_f W fsem fpre rorder s1 h) in
+    (forall k, k = d \/ anc (as_input W f0 v0) k d ->
+               ~ fails_at (as_input W f0 v0) fsem fpre sem (st_cache s2) k) ->
+    snd (evaluate_f W fsem fpre rorder s2 d) = FVal (spec (as_input W f0 v0) sem (st_cache s2) d).
+Proof. exact repair_value. Qed.
+Print Assumptions C09_repair_value_partial.
